@@ -261,7 +261,7 @@ def run(chk):
         for s, exc, t in outs.of("exc"):
             paths6 += 1
             if exc.colour == ORD:
-                r6.fail("Client.close:ordinary-exception-escapes", "an ordinary exception (%s) can escape close()" % exc, fn=close, line=exc.origin, witness=fmt_trace(t))
+                r6.fail("Client.close:ordinary-exception-escapes", "an ordinary exception (%s) can escape close()" % (exc,), fn=close, line=exc.origin, witness=fmt_trace(t))
         for s, v, t in outs.of("ret"):
             paths6 += 1
             ok = s.get("self.sock", TOP) == NONE
